@@ -44,10 +44,10 @@ def _table(rng, cell, cli):
     rows = []
     low = lambda: rng.choice([-20.0, -22.5, -16.0, -15.03125])
 
-    def add(name, n, level, base=3000000, lowfrac=0.0, sdev=None):
+    def add(name, n, level, base=3000000, lowfrac=0.0, sdev=None, unif=0.0):
         keep = rng.randrange(n) if n else 0   # this bin is never a low one: every group keeps a bin under skip_low
         for i in range(n):
-            v = _grid(level + rng.gauss(0, sd if sdev is None else sdev), g)
+            v = _grid(level + rng.gauss(0, sd if sdev is None else sdev) + (rng.uniform(-unif, unif) if unif else 0.0), g)
             d = _grid(rng.uniform(1, 50), 4)
             if lowfrac and i != keep and rng.random() < lowfrac:
                 if with_depth and rng.random() < .5:
@@ -58,6 +58,8 @@ def _table(rng, cell, cli):
     if cell == "empty":
         return rows, dict(hapX=hapx, par=par, skip_low=False, with_w=False, with_depth=False, female=female)
     lf = 0.25 if cell == "skiplow" else 0.0
+    # flat cells: autosomes exactly flat, sex chromosomes either exact or with bounded noise inside the margin d = 1/5
+    un = rng.choice([0.0, 0.19]) if cell == "flat" else 0.0
     if cell != "noauto":
         for c in range(1, rng.randint(1, 5) + 1):
             add(style + str(c), rng.randint(2, 30), 0.0, base=0, lowfrac=lf)
@@ -68,14 +70,14 @@ def _table(rng, cell, cli):
             # bins inside PAR1X of both builds (they count as autosomal at the autosomal level) ...
             add(style + "X", rng.randint(1, 8), 0.0, base=100000, lowfrac=lf)
         if cell != "par-all":
-            add(style + "X", nx, xl, lowfrac=lf)
+            add(style + "X", nx, xl, lowfrac=lf, unif=un)
     if cell not in ("noy",) and (cell in ("ylow", "nox") or rng.random() < .7):
         ny = rng.randint(1, 12)
         if cell == "ylow":
             for i in range(ny):
                 rows.append([style + "Y", 3000000 + i * 1000, 3000000 + i * 1000 + 500, low(), 1.0, 0.5])
         else:
-            add(style + "Y", ny, 0.0 if not female else -4.0, lowfrac=lf, sdev=(sd if not female else min(sd, 1.0)))
+            add(style + "Y", ny, 0.0 if not female else -4.0, lowfrac=lf, sdev=(sd if not female else min(sd, 1.0)), unif=un)
     if cell == "noauto" and rng.random() < .5:
         add(style + "M", rng.randint(1, 5), 0.0)
     return rows, dict(hapX=hapx, par=par, skip_low=skip_low, with_w=with_w, with_depth=with_depth, female=female)
@@ -192,6 +194,8 @@ def to_line(case, impl, is_err):
     rows = [[r[0], r[1], r[2], frac(r[3]), frac(r[4]) if i["with_depth"] else None, frac(r[5]) if i["with_w"] else None]
             for r in i["rows_f"]]
     base = {"rows": rows, "hapX": i["hapX"], "par": i["par"], "skip_low": i["skip_low"], "calls": []}
+    if case["tag"].startswith("glue-flat"):
+        base["margin"] = {"female": i["female"], "a": "0", "d": "1/5"}
     if is_err or any(c["stat"] == "nan" for c in impl["calls"]):
         return {"op": "sex_glue", "in": base}
     base["calls"] = impl["calls"]
